@@ -183,6 +183,13 @@ class PathEnum:
         if isinstance(e, ast.UnaryOp) and isinstance(e.op, ast.Not):
             v = self.const_of(e.operand, p, fr)
             return _UNKNOWN if v is _UNKNOWN else (not v)
+        if getattr(self, 'default_kwargs', False) and isinstance(e, ast.Call) and isinstance(e.func, ast.Attribute) and e.func.attr == 'get' \
+                and isinstance(e.func.value, ast.Name) and len(e.args) == 2 and all(isinstance(a, ast.Constant) for a in e.args):
+            # default-call mode: an option looked up in **kwargs takes its default
+            func = getattr(fr, 'func', None)
+            kw = getattr(getattr(getattr(func, 'node', None), 'args', None), 'kwarg', None)
+            if kw is not None and kw.arg == e.func.value.id and fr.fid == 0:
+                return e.args[1].value
         if isinstance(e, ast.Call) and isinstance(e.func, ast.Name) and e.func.id == 'isinstance' and len(e.args) == 2 \
                 and isinstance(e.args[0], ast.Name) and e.args[0].id == 'self' and isinstance(e.args[1], ast.Name):
             # the receiver's concrete class is the one the enumeration was started for
